@@ -443,6 +443,45 @@ func chainRule(c *core.Ctx) {
 				}
 			}
 		}
+		// emission on the decode side: every looked-up rune reaches the output through a rune-wide sink (WriteRune /
+		// utf8.AppendRune / utf8.EncodeRune / string(rune)); a narrowing of the rune (byte(r)) loses the non-ASCII characters
+		if f.name == "Decode" || f.typ == "gsm7Decoder" {
+			emitted := 0
+			for _, lk := range lookups {
+				if lk.Referrers() == nil {
+					continue
+				}
+				for _, r := range *lk.Referrers() {
+					ex, ok := r.(*ssa.Extract)
+					if !ok || ex.Index != 0 || ex.Referrers() == nil {
+						continue
+					}
+					for _, use := range *ex.Referrers() {
+						switch u := use.(type) {
+						case *ssa.Call:
+							n := calleeName(u)
+							if strings.HasSuffix(n, ".WriteRune") || n == "unicode/utf8.AppendRune" || n == "unicode/utf8.EncodeRune" {
+								emitted++
+							} else {
+								problems = append(problems, "a looked-up character is passed to "+n+" at "+c.Prog.Pos(u.Pos()))
+							}
+						case *ssa.Convert:
+							if bt, isB := u.Type().Underlying().(*types.Basic); isB && bt.Info()&types.IsString != 0 {
+								emitted++ // string(r)
+							} else if isB && bt.Info()&types.IsInteger != 0 {
+								if sz, _ := typeRange(u.Type()); sz.hi != nil && sz.hi.BitLen() < 21 {
+									problems = append(problems, "a looked-up character is narrowed to "+u.Type().String()+" at "+c.Prog.Pos(u.Pos())+": characters above that range (e.g. the euro sign) are corrupted")
+								}
+							}
+						case *ssa.DebugRef, *ssa.Phi:
+						}
+					}
+				}
+			}
+			if emitted < 2 {
+				problems = append(problems, fmt.Sprintf("only %d looked-up characters reach a rune-wide sink (expected the default-table and the extension-table result)", emitted))
+			}
+		}
 		c.Decide(len(problems) == 0, "C08-CHAIN", key, pos, fmt.Sprintf("%s then %s; every character-dependent decision is a table lookup", want[0], want[1]), strings.Join(uniq(problems), "; "))
 	}
 }
